@@ -38,4 +38,22 @@ CLAIMED['C01'] = (
     'DESIGN.md 3/C01',
 )
 
+CLAIMED['C05'] = (
+    'twin-table sibling check, homogeneity-degree typing (abstract interpretation with sympy degrees), availability-guard flow check, telescoping pattern check (ast)',
+    'Decides the structural clauses: each probability function is exp of its log twin with identical arguments (7 pairs); in the four MEV builders every '
+    'ln G_i - nest members and alternatives alone - is typed as the log of a function of y=exp(V) homogeneous of the same degree mu-1, which is necessary and '
+    'sufficient for invariance of P_i ~ exp(V_i + ln G_i) under V -> V + c given homogeneous terms; every nest-sum term is guarded by the availability of the '
+    'same alternative and the kernel receives the availabilities unchanged; LogLogit.get_value returns log-probabilities <= 0; the ordered model entries '
+    'telescope with non-negative free increments. Not decided: range and sum of the logit kernel inside the engine, user-supplied generating terms.',
+    'DESIGN.md 3/C05',
+)
+CLAIMED['C06'] = (
+    'homogeneity-degree typing of the generating function, sympy normal-form comparison of scaled (mu:=1) and unscaled term templates, nullability of log arguments, CFG dominance for the legacy-syntax conversion (ast)',
+    'Decides: every term of the published nested-logit generating function has degree 1 with one term per nest / per alternative alone, and every published '
+    'ln G_i has degree 0 (necessary for G_i to be the partial derivatives of G); the per-alternative term of each scaled builder with mu:=1 equals the unscaled '
+    'one in sympy normal form; legacy tuples are converted by cls(*tuple) with the documented field order and validated before the nests are used. One known '
+    'finding (cnlmu uses log where cnl uses logzero). Not decided: numeric equality of the reduced models.',
+    'DESIGN.md 3/C06',
+)
+
 NOT_APPLICABLE = {f'C{i:02d}': WIP for i in range(1, 20)}
